@@ -294,10 +294,11 @@ func scenarios() []scenario {
 	add("dead/2xTry-override", "posixmem", "dead", 2, T(true), T(true))
 	add("dead/Try-override+Try", "posixmem", "dead", 2, T(true), T(false))
 	add("dead-nofile/2xTry-override", "posixmem", "dead-nofile", 2, T(true), T(true))
-	add("dead/Lock-override+Lock-override", "posixmem", "dead", 2, L(true), L(true))
+	add("dead/Lock-override+Lock-override P1", "posixmem", "dead", 1, L(true), L(true))
 	add("free/2xTry(mem)", "mem", "free", 2, T(false), T(false))
-	add("free/Try+Lock(mem)", "mem", "free", 2, T(false), L(false))
 	if ev.Thorough() {
+		add("dead/Lock-override+Lock-override", "posixmem", "dead", 2, L(true), L(true))
+		add("free/Try+Lock(mem)", "mem", "free", 2, T(false), L(false))
 		add("free/3:Try+Lock+Lock", "posixmem", "free", 2, T(false), L(false), L(false))
 		add("free/Lock+Lock hold40", "posixmem", "free", 2, L(false), L(false))
 		add("dead/2xTry-override hold40", "posixmem", "dead", 2, T(true), T(true))
